@@ -26,18 +26,19 @@ LEVEL_NOTE = "Trusted: rustc MIR, std collection semantics, the reference graph 
 TECHNIQUE = "def-use provenance of struct-literal fields + consumption classification of fallible lookups"
 FIXTURE_EXPECT = ["c02.ref"]
 
-# target collection -> IdMaps accessor and IdMaps field
+# target collection of the model -> (source collection of the BDL data, regex of the source element whose hash is the id).  Which IdMaps table and
+# accessor serve a kind is read from the code (the table built from these elements, the accessor that reads that table), not fixed by name.
 KIND = {
-    "spaces": ("space_id", "spaces", "bdl.spaces"),
-    "walls": ("wall_id", "walls", "bdl.walls"),
-    "cons.wallcons": ("wallcons_id", "wallcons", "bdl.db.wallcons"),
-    "cons.wincons": ("wincons_id", "wincons", "bdl.db.wincons"),
-    "cons.materials": ("material_id", "materials", "bdl.db.materials"),
-    "schedules.year": ("schedule_year_id", "schedules_year", "bdl.schedules"),
-    "schedules.week": ("schedule_week_id", "schedules_week", "bdl.schedules"),
-    "schedules.day": ("schedule_day_id", "schedules_day", "bdl.schedules"),
-    "loads": ("loads_id", "loads", "bdl.space_conditions"),
-    "thermostats": ("thermostat_id", "thermostats", "bdl.system_conditions"),
+    "spaces": ("bdl.spaces", r"bdl\.spaces\[\]"),
+    "walls": ("bdl.walls", r"bdl\.walls\[\]"),
+    "cons.wallcons": ("bdl.db.wallcons", r"bdl\.db\.wallcons\[\]\.1"),
+    "cons.wincons": ("bdl.db.wincons", r"bdl\.db\.wincons\[\]\.1"),
+    "cons.materials": ("bdl.db.materials", r"bdl\.db\.materials\[\]\.1"),
+    "schedules.year": ("bdl.schedules", r"bdl\.schedules\[\]@Year\.0"),
+    "schedules.week": ("bdl.schedules", r"bdl\.schedules\[\]@Week\.0"),
+    "schedules.day": ("bdl.schedules", r"bdl\.schedules\[\]@Day\.0"),
+    "loads": ("bdl.space_conditions", r"bdl\.space_conditions\[\](\.1)?"),
+    "thermostats": ("bdl.system_conditions", r"bdl\.system_conditions\[\](\.1)?"),
 }
 OWNER_TYPE = {
     "walls": "Wall", "windows": "Window", "cons.wallcons": "WallCons", "cons.wincons": "WinCons", "spaces": "Space", "loads": "SpaceLoads",
@@ -55,8 +56,22 @@ EXCEPTIONS = {
 
 
 class Src:
-    def __init__(self, kind, what, mode, loc=None):
-        self.kind, self.what, self.mode, self.loc = kind, what, mode, loc
+    def __init__(self, kind, what, mode, loc=None, idfn=None):
+        self.kind, self.what, self.mode, self.loc, self.idfn = kind, what, mode, loc, idfn
+
+
+def id_function(prog, n):
+    """(short name, hashed-object descriptor) if call node n computes a Uuid from an object: a workspace function returning uuid::Uuid;
+    the hashed object is its last argument (`uuid_from_obj(&x)`, `cached(key, &x)`)"""
+    if n[0] != "call" or not n[2]:
+        return None
+    ids = prog.callee_index().get(n[1], ())
+    if len(ids) != 1:
+        return None
+    f = prog.fns[next(iter(ids))]
+    if f.raw.get("ret") != "uuid::Uuid" or f.path.startswith("bemodel::convert::from_ctehexml::IdMaps"):
+        return None
+    return short_callee(n[1]), origin_desc(strip(n[2][-1]))
 
     def __repr__(self):
         return "%s:%s(%s)" % (self.kind, self.what, self.mode)
@@ -137,10 +152,11 @@ def sources(prog, sc, n, mode="raw", depth=0, elemwise=False):
         return [Src("other", show(n)[:80], mode)]
     if k == "call":
         nm = short_callee(n[1])
-        if "IdMaps" in n[1] and nm.endswith("_id"):
+        if "IdMaps" in n[1] and nm != "new":
             return [Src("lookup", nm, mode)]
-        if nm in ("uuid_from_obj", "uuid_from_str"):
-            return [Src("uuid", origin_desc(n[2][0]), mode)]
+        idf = id_function(prog, n)
+        if idf:
+            return [Src("uuid", idf[1], mode, idfn=idf[0])]
         if nm in ("unwrap_or_default", "unwrap_or", "unwrap_or_else"):
             return sources(prog, sc, n[2][0], "defaulted", depth + 1)
         if nm in ("unwrap", "expect"):
@@ -212,9 +228,75 @@ def literals(prog, prefix="bemodel::convert::from_ctehexml::", adt_prefix="bemod
     return out
 
 
+def idmaps_model(ctx, prog):
+    """(tables, accessors): tables[field] = (source collection, {(id fn, hashed element)}); accessors[method] = {fields read with get}"""
+    idmaps_new = prog.find("bemodel::convert::from_ctehexml::IdMaps::<'a>::new")
+    isc = Scope(prog, idmaps_new)
+    tbl = None
+    for b, i, s in idmaps_new.body.statements():
+        if s["s"] == "assign" and s["rv"]["r"] == "agg" and s["rv"].get("adt", "").endswith("IdMaps"):
+            tbl = isc.rvalue(s["rv"])
+    ctx.require(tbl is not None, "IdMaps literal not found in IdMaps::new")
+    tables = {}
+    for fld, v in zip(tbl[2], tbl[3]):
+        ch = iter_chain(strip(v))
+        src = ch.source_name()
+        cl = [c for (a, c) in ch.steps if a in ("map", "filter_map", "flat_map")]
+        ids = set()
+        for c in cl:
+            cfn = prog.fns.get(closure_id_of(c))
+            if cfn:
+                csc = Scope(prog, cfn, {}, ("elem", src, ()))
+                for (_, rn) in returned_nodes(cfn.body):
+                    for x in walk(csc._rw(rn)):
+                        idf = id_function(prog, x)
+                        if idf:
+                            ids.add(idf)
+        tables[fld] = (src, ids)
+    accessors = {}
+    for f in prog.fns.values():
+        if f.root != f.id or not f.path.startswith("bemodel::convert::from_ctehexml::IdMaps::<'a>::") or f.path.endswith("::new"):
+            continue
+        asc = Scope(prog, f)
+        reads = set()
+        for bb, t in f.body.calls():
+            if short_callee(callee_name(t) or "") in ("get", "get_key_value") and t["args"]:
+                nm = leaf_name(strip(asc.operand(t["args"][0]))) or ""
+                if nm.startswith("self."):
+                    reads.add(nm[len("self."):])
+        accessors[f.path.rsplit("::", 1)[-1]] = (reads, f)
+    return idmaps_new, tables, accessors
+
+
+def lookup_kinds(tables, accessors, method):
+    """the source elements whose ids a lookup through `method` can return"""
+    if method not in accessors:
+        return None
+    out = set()
+    for fld in accessors[method][0]:
+        out |= {d for (_, d) in tables.get(fld, (None, set()))[1]} or {"?%s" % fld}
+    return out
+
+
+def kind_problem(tables, accessors, method, target):
+    import re as _re
+    kinds = lookup_kinds(tables, accessors, method)
+    if kinds is None:
+        return "looked up with %s, which is not an IdMaps accessor that reads a table" % method
+    if not kinds:
+        return "looked up with %s, which reads no id table" % method
+    want = KIND[target][1]
+    wrong = sorted(k for k in kinds if not _re.match("^%s$" % want, k))
+    if wrong:
+        return ("looked up with %s, whose table also holds ids of %s: a name of another kind resolves to an id that is not in model.%s (expected only %s)"
+                % (method, ", ".join(wrong), target, want.replace("\\", "")))
+    return None
+
+
 def run(ctx):
     prog = ctx.prog
     lits = literals(prog)
+    idmaps_new, tables, accessors = idmaps_model(ctx, prog)
     ctx.floor("c02", "model literals in the converter", len(lits), 15)
     # reference graph vs type graph: every Uuid position in the Model closure is classified
     check_refgraph_complete(ctx, prog)
@@ -231,7 +313,6 @@ def run(ctx):
         if not found:
             ctx.violation("c02.ref", key, "no %s literal with field %s found in the converter" % (tname, fname), None)
             continue
-        want_method = KIND[target][0] if target in KIND else None
         for (sc, n, loc) in found:
             nref += 1
             val = n[3][n[2].index(fname)]
@@ -240,8 +321,9 @@ def run(ctx):
             modes = set()
             for s in srcs:
                 if s.kind == "lookup":
-                    if s.what != want_method:
-                        probs.append("looked up with %s, expected %s (id of the wrong kind of element)" % (s.what, want_method))
+                    kp = kind_problem(tables, accessors, s.what, target)
+                    if kp:
+                        probs.append(kp)
                     modes.add(s.mode)
                 elif s.kind == "local_map":
                     # name -> id map built from the target collection in the same function
@@ -270,58 +352,23 @@ def run(ctx):
                 ctx.ok("c02.ref", key, "fed by %s" % sorted({repr(s) for s in srcs}), loc)
     ctx.floor("c02.ref", "reference fields examined", nref, 14)
 
-    # IdMaps accessors and tables
-    idmaps_new = prog.find("bemodel::convert::from_ctehexml::IdMaps::<'a>::new")
-    isc = Scope(prog, idmaps_new)
-    tbl = None
-    for b, i, s in idmaps_new.body.statements():
-        if s["s"] == "assign" and s["rv"]["r"] == "agg" and s["rv"].get("adt", "").endswith("IdMaps"):
-            tbl = isc.rvalue(s["rv"])
-    ctx.require(tbl is not None, "IdMaps literal not found in IdMaps::new")
-    idsrc = {}
-    for target, (method, fld, bdlcoll) in sorted(KIND.items()):
+    # IdMaps tables: every table hashes whole source elements with uuid_from_obj; every kind of the reference graph has a table of exactly that kind
+    import re as _re
+    for fld, (src, ids) in sorted(tables.items()):
         key = "c02.idmaps|%s" % fld
-        v = strip(tbl[3][tbl[2].index(fld)])
-        ch = iter_chain(v)
-        src = ch.source_name()
-        # closure returns (name, uuid_from_obj(elem))
-        cl = [c for (a, c) in ch.steps if a in ("map", "filter_map")]
-        okv = None
-        if cl:
-            cid = closure_id_of(cl[0])
-            cfn = prog.fns.get(cid)
-            if cfn:
-                from ..cfgq import elem_of_chain
-                csc = Scope(prog, cfn, {}, ("elem", src, ()))
-                for (_, rn) in returned_nodes(cfn.body):
-                    for x in walk(csc._rw(rn)):
-                        if x[0] == "call" and short_callee(x[1]) in ("uuid_from_obj", "uuid_from_str"):
-                            okv = (short_callee(x[1]), origin_desc(x[2][0]))
-        idsrc[target] = okv
-        import re as _re
-        whole = okv is not None and bool(_re.match(r"^%s\[\](\.1|@\w+\.0)?$" % _re.escape(bdlcoll), okv[1]))
-        if src == bdlcoll and okv and okv[0] == "uuid_from_obj" and whole:
-            ctx.ok("c02.idmaps", key, "IdMaps.%s: name -> uuid_from_obj(%s)" % (fld, okv[1]), idmaps_new.loc())
+        bad = [i for i in ids if not _re.match(r"^%s\[\](\.1|@\w+\.0)?$" % _re.escape(src or "?"), i[1])]
+        if ids and not bad:
+            ctx.ok("c02.idmaps", key, "IdMaps.%s: name -> %s" % (fld, ", ".join(sorted("%s(%s)" % i for i in ids))), idmaps_new.loc())
         else:
-            ctx.violation("c02.idmaps", key, "IdMaps.%s is built from %s with id %s, expected uuid_from_obj of the elements of %s" % (fld, src, okv, bdlcoll), idmaps_new.loc())
-        # accessor reads its own table
-        try:
-            acc = prog.find("bemodel::convert::from_ctehexml::IdMaps::<'a>::%s" % method)
-        except AnalysisError:
-            ctx.violation("c02.idmaps", key + "|accessor", "accessor %s not found" % method, None)
-            continue
-        asc = Scope(prog, acc)
-        reads = set()
-        for bb, t in acc.body.calls():
-            if short_callee(callee_name(t) or "") == "get":
-                reads.add(leaf_name(strip(asc.operand(t["args"][0]))))
-        kind, detail = ("", "")
-        rn = returned_nodes(acc.body)
-        okr = reads == {"self.%s" % fld}
-        if okr:
-            ctx.ok("c02.idmaps", key + "|accessor", "%s reads self.%s" % (method, fld), acc.loc())
+            ctx.violation("c02.idmaps", key, "IdMaps.%s is built from %s with ids %s, expected an id computed from whole elements of that collection" % (fld, src, sorted(ids)), idmaps_new.loc())
+    for target, (bdlcoll, want) in sorted(KIND.items()):
+        key = "c02.idmaps|kind|%s" % target
+        pure = sorted(m for m in accessors if (lookup_kinds(tables, accessors, m) or set()) and all(_re.match("^%s$" % want, k) for k in lookup_kinds(tables, accessors, m)))
+        if pure:
+            ctx.ok("c02.idmaps", key, "accessor %s resolves names among %s only" % (pure, want.replace("\\", "")), accessors[pure[0]][1].loc())
         else:
-            ctx.violation("c02.idmaps", key + "|accessor", "%s reads %s, expected self.%s (ids of the wrong kind)" % (method, sorted(reads), fld), acc.loc())
+            ctx.violation("c02.idmaps", key, "no IdMaps accessor resolves names among %s only: links to model.%s cannot be checked for kind" % (want.replace("\\", ""), target), idmaps_new.loc())
+    ctx.floor("c02.idmaps", "IdMaps tables", len(tables), 8)
 
     # D2 element ids
     ID_OF = {"Space": "spaces", "Wall": "walls", "WallCons": "cons.wallcons", "WinCons": "cons.wincons", "Material": "cons.materials", "SpaceLoads": "loads",
@@ -330,22 +377,25 @@ def run(ctx):
         if t not in ID_OF or "id" not in n[2]:
             continue
         target = ID_OF[t]
-        method, fld, bdlcoll = KIND[target]
+        bdlcoll, want = KIND[target]
         key = "c02.id|%s" % t
         srcs = sources(prog, sc, n[3][n[2].index("id")])
         probs = []
         modes = set()
         for s in srcs:
             if s.kind == "lookup":
-                if s.what != method:
-                    probs.append("id taken from %s, expected %s" % (s.what, method))
+                kp = kind_problem(tables, accessors, s.what, target)
+                if kp:
+                    probs.append("id " + kp)
                 modes.add(s.mode)
             elif s.kind == "uuid":
-                # must hash the same source object the IdMaps table hashes
-                want = idsrc.get(target)
+                # must hash the same source object the IdMaps table of this kind hashes
                 base = s.what.split("@")[0]
+                tfns = {fn_ for (src_, ids_) in tables.values() for (fn_, d_) in ids_ if _re.match("^%s$" % want, d_)}
+                if tfns and s.idfn not in tfns:
+                    probs.append("id = %s(%s) but the lookup table of this kind computes ids with %s: references to this element may not resolve" % (s.idfn, s.what, sorted(tfns)))
                 if not (base.startswith(bdlcoll) or "get(%s" % bdlcoll in s.what):
-                    probs.append("id = uuid_from_obj(%s) but IdMaps.%s hashes elements of %s: references to this element would not resolve" % (s.what, fld, bdlcoll))
+                    probs.append("id = uuid_from_obj(%s) but the lookup table of this kind hashes elements of %s: references to this element would not resolve" % (s.what, bdlcoll))
             else:
                 probs.append("id of unknown origin %s" % s.what)
         bad = modes - {"propagated"}
